@@ -683,6 +683,24 @@ func (e *Env) evalCall(x ECall) TV {
 	if ne.cf == nil {
 		ne.cf = e.cf
 	}
+	if pf.Body == nil {
+		// uninterpreted specification function
+		rt := ne.resolveType(pf.Ret)
+		var args []Term
+		var sorts []string
+		for i := range pf.Params {
+			a := e.asTerm(e.eval(x.Args[i]))
+			args = append(args, a)
+			sorts = append(sorts, string(a.Sort))
+		}
+		name := quoteSym("spec:" + pf.Pkg + "." + pf.Name)
+		vc.declareOnce("spec:"+pf.Pkg+"."+pf.Name, fmt.Sprintf("(declare-fun %s (%s) %s)", name, strings.Join(sorts, " "), rt.SortOf()))
+		t := app(rt.SortOf(), name, args...)
+		if len(args) == 0 {
+			t = Term{name, rt.SortOf()}
+		}
+		return TV{t, rt}
+	}
 	for i, p := range pf.Params {
 		ne.vars[p.Name] = e.eval(x.Args[i])
 	}
@@ -976,7 +994,7 @@ func (e *Env) conjuncts(x Expr, tag string, depth int) []conjunct {
 		}
 	case ECall:
 		if depth < 3 {
-			if pf := e.vc.w.lookupPure(e.pkgPath, v.Fn); pf != nil && len(pf.Params) == len(v.Args) {
+			if pf := e.vc.w.lookupPure(e.pkgPath, v.Fn); pf != nil && pf.Body != nil && len(pf.Params) == len(v.Args) {
 				ne := &Env{vc: e.vc, heap: e.heap, old: e.old, vars: map[string]TV{}, pkgPath: pf.Pkg, cf: e.vc.w.cfByPkg[pf.Pkg], depth: e.depth + 1}
 				if ne.cf == nil {
 					ne.cf = e.cf
